@@ -65,3 +65,25 @@ package archive
 //@     decreases len(path)
 //@   ensures count <= 0 ==> result == path
 //@   ensures len(result) <= len(path)
+
+// newZipArchive keeps exactly the regular members of the zip directory, in
+// their order (in-place filter of zr.File): every kept member is regular and a
+// member of the directory, and every regular member of the directory is kept.
+//@ abstract func zipMode(h *zip.FileHeader) int
+//@ func zip.(*FileHeader).Mode
+//@   trusted
+//@   flag only_for=archive.
+//@   ensures result == zipMode(h)
+//@   assigns nothing
+//@ func archive.newZipArchive
+//@   may_panic
+//@   loop 1:
+//@     invariant base(files) == base(zr.File) && offset(files) == offset(zr.File) && cap(files) == cap(zr.File) && 0 <= len(files) && len(files) <= $i + 1
+//@     invariant forall k int :: $i < k && k < len(zr.File) ==> zr.File[k] == before(1, zr.File[k])
+//@     invariant forall a int :: 0 <= a && a < len(files) ==> files[a] != nil && modeRegular(zipMode(addr(files[a].FileHeader))) && (exists m int :: a <= m && m <= $i && files[a] == before(1, zr.File[m]))
+//@     invariant forall m int :: 0 <= m && m <= $i && before(1, zr.File[m]) != nil && modeRegular(zipMode(addr(before(1, zr.File[m]).FileHeader))) ==> (exists a int :: 0 <= a && a < len(files) && files[a] == before(1, zr.File[m]))
+//@     invariant forall a, b int :: 0 <= a && a < b && b < len(files) ==> (exists m, n int :: m < n && n <= $i && files[a] == before(1, zr.File[m]) && files[b] == before(1, zr.File[n]))
+//@     decreases len(zr.File) - $i
+//@   assert at alloc:zipArchive: forall a int :: 0 <= a && a < len(files) ==> files[a] != nil && modeRegular(zipMode(addr(files[a].FileHeader)))
+//@   assert at alloc:zipArchive: forall m int :: 0 <= m && m < len(zr.File) && before(1, zr.File[m]) != nil && modeRegular(zipMode(addr(before(1, zr.File[m]).FileHeader))) ==> (exists a int :: 0 <= a && a < len(files) && files[a] == before(1, zr.File[m]))
+//@   ensures result1 == nil ==> result0 != nil && (forall a int :: 0 <= a && a < len(result0.files) ==> result0.files[a] != nil && modeRegular(zipMode(addr(result0.files[a].FileHeader))))
